@@ -52,6 +52,8 @@ def run(rep: vlib.Reporter, tier: str, seed: int) -> None:
     specs += [daggen.gen_siblings(rng) for _ in range(30 if big else 5)]
     # a requested column produced by a step whose table another worker still has to read (framework change / join)
     specs += [daggen.gen_partial_request(rng) for _ in range(40 if big else 8)]
+    # one uploaded table read by several other workers, the last of them late (transform steps + the join with a slow source)
+    specs += [daggen.gen_shared_upload(rng) for _ in range(12 if big else 3)]
     n_sched = 8 if big else 4
     n_mp = 3 if big else 1
     recs = [one_spec(s, rng, n_sched) for s in specs]
@@ -79,7 +81,9 @@ def run(rep: vlib.Reporter, tier: str, seed: int) -> None:
     for i, r in enumerate(recs):
         plan = r["plan"]
         key = json.dumps(r["spec"], sort_keys=True)
-        planner_kf = bool(kf_tfs_partial_requirement(plan) or kf_framework_roundtrip(plan) or kf_tfs_missing(plan))
+        # the plan predicates describe link-free plans; in a joined plan both sources list the consumer as child by design (the run-time
+        # lookup follows the merge relation, Model/RoutingJ.v): the shared-upload family lies outside every recorded domain
+        planner_kf = False if r["spec"].get("family") == "shared_upload" else bool(kf_tfs_partial_requirement(plan) or kf_framework_roundtrip(plan) or kf_tfs_missing(plan))
         dist["in_planner_kf"] += planner_kf
         n_eval += 1
         if r["sync"]["status"] != "ok":
